@@ -318,7 +318,8 @@ func (c *irChecker) structure(fn *ir.Function) bool {
 				v := *op
 				if vi, ok := v.(ir.Instruction); ok {
 					if vb := inFn[vi]; vb == nil {
-						if vi.Parent() == fn {
+						// an instruction that was removed from its block has no block any more
+						if vi.Block() == nil || vi.Parent() == fn {
 							bad("%s (block %d) uses %s, which is not an instruction of the function any more", ins, b.Index, v.Name())
 						}
 					}
